@@ -35,7 +35,12 @@ ASSUMPTIONS = [
     "the order of asserts inside one run of consecutive asserts carries no meaning (asserts have no side effects): anomaly only",
     "file headers (imports, seed fixture) are not compared; C18 covers them",
     "a parse or export exception on Pynguin's own output is a witness (parse-raises / export-raises), harness trouble is inconclusive",
+    "rng_user (draws random numbers) is outside the quantifier: the writer decides pytest.raises / xfail by re-executing the statements, "
+    "which sees other random values in the second export; its differences are anomalies",
 ]
+
+
+NONDETERMINISTIC_SUTS = {"rng_user"}
 
 
 def floors(tier):
@@ -273,6 +278,19 @@ def check_run(ctx, r):
     from vlib import core, genfiles
 
     c, res = r["case"], r["res"]
+    if c["sut"] in NONDETERMINISTIC_SUTS:
+        # the writer re-executes the statements to place pytest.raises / xfail; with a SUT that draws random numbers the two
+        # exports see different values.  Outside the quantifier of the property: witnesses become anomalies.
+        real = ctx
+
+        class _Demote:
+            def __getattr__(self, name):
+                return getattr(real, name)
+
+            def witness(self, key, desc, case=None):
+                real.anomaly(f"random-using-sut:{key}")
+
+        ctx = _Demote()
     calls = genfiles.monitor_calls(res, "seed_roundtrip")
     rt = next((e for e in res["events"] if e.get("ev") == "roundtrip"), None)
     if rt is None or not calls:
